@@ -359,7 +359,8 @@ def parse_tagged(out, tag="#"):
         if line.startswith(tag):
             head, _, rest = line[len(tag):].partition(" ")
             if head.isdigit():
-                res[int(head)] = rest
+                # a case must report exactly once: a second line for the same case (control returned twice) is kept visible
+                res[int(head)] = rest if int(head) not in res else res[int(head)] + "  ++REPORTED AGAIN++  " + rest
     return res
 
 
